@@ -51,9 +51,13 @@ def tree_points(tree):
 
 
 def roundtrip(tree, mode="direct"):
+    return restore(tree.to_dict(), mode)
+
+
+def restore(d, mode="direct"):
+    """Tree.from_dict of the dictionary itself (direct) or of its pickle / gzip-file copy"""
     from phyclone.tree import Tree
 
-    d = tree.to_dict()
     if mode == "pickle":
         d = pickle.loads(pickle.dumps(d, protocol=pickle.HIGHEST_PROTOCOL))
     elif mode == "gzip":
@@ -738,7 +742,7 @@ def roundtrip_job(args):
                 holes = idx != list(range(len(idx)))
                 out["holes"] += holes
                 out["outlier_only"] += (len(tree.nodes) == 0 and len(tree.outliers) > 0)
-                back = roundtrip(tree, mode)
+                back = restore(d, mode)  # direct: the SAME dictionary is restored again later (old), after `back` was edited
                 out["roundtrips"] += 1
                 try:
                     safe_abs(back)
